@@ -39,11 +39,16 @@ def main():
         checks = rest[rest.index("--checks") + 1].split(",")
     if "--no-tests" in rest:
         run_tests = False
+    base = "HEAD"
+    if "--base" in rest:  # commit of /repo the change was written against
+        base = rest[rest.index("--base") + 1]
     wt = tempfile.mkdtemp(prefix="seedchk-")
     os.rmdir(wt)
     out = {"property": prop, "name": name, "confirmed_at": time.strftime("%F %T")}
     try:
-        r = sh(["git", "-C", "/repo", "worktree", "add", "-q", "--detach", wt, "HEAD"])
+        r = sh(["git", "-C", "/repo", "worktree", "add", "-q", "--detach", wt, base])
+        out["repo_base"] = sh(["git", "-C", wt, "log", "--format=%h", "-1"]
+                              ).stdout.strip()
         assert r.returncode == 0, r.stderr
         env = dict(os.environ, PYTHONPATH=wt, JAX_PLATFORMS="cpu", TQDM_DISABLE="1")
         demo = os.path.join(src, "demo.py")
